@@ -16,6 +16,14 @@ CLAIMS = {
              "replaced by a flag; |carry_in| <= 2^(63-k) for the primitive",
         technique="CBMC bounded model checking (SAT) of the real C code, shapes enumerated, data symbolic; native ASan replay of counterexamples",
         ref="DESIGN.md 4/C05"),
+    "C08": dict(
+        text="Bounded symbolic model checking of every vec_znx_* / vec_znx_big_* element-wise entry point through the public wrappers "
+             "and the real dispatch table (both CPU flags): limb counts 0..3(4) in all orderings, three stride combinations, N in {2,4,8}, all "
+             "64-bit data symbolic; asserts limb-wise result with zero-extension/truncation, that padding and limbs past res_size keep "
+             "their previous contents and that sources are bit-identical. Shapes outside the box are not claimed.",
+        note="cbmc 6.11 + goto-cc + shim/immintrin.h for the AVX units; exactly-sized heap buffers; malloc never fails; table builders not run",
+        technique="CBMC bounded model checking (SAT) of the real C code incl. AVX units through an intrinsics shim, shapes enumerated, data symbolic; native ASan replay",
+        ref="DESIGN.md 4/C08"),
 }
 
 NOT_YET = "check not built yet in this session (work in progress; see DESIGN.md section 4 for the plan)"
